@@ -271,7 +271,35 @@ func init() {
 					sp.Depth = 3
 				}
 			})
-			return shardsOfSpecs(specs)
+			sh := shardsOfSpecs(specs)
+			// sketch level: sketches backed by collapsing stores, merged with sketches of other kinds
+			var sks []*SketchScenarioSpec
+			alphas := []float64{0.5, 0.1}
+			for _, a := range alphas {
+				for _, k := range []Kind{{K: 'L', N: 2}, {K: 'H', N: 2}, {K: 'L', N: 4}, {K: 'H', N: 4}, {K: 'L', N: 8}, {K: 'H', N: 8}} {
+					for pi, partner := range []Kind{{K: 'D'}, {K: 'L', N: 16}, {K: 'H', N: 3}, {K: 'P'}} {
+						if tier == "quick" && pi >= 2 && a != 0.1 {
+							continue
+						}
+						ms := MapSpec{Kind: 'G', Alpha: a}
+						m := ms.New()
+						sp := &SketchScenarioSpec{Name: fmt.Sprintf("C05/sketch/%s/%s+%s", ms, k, partner), Property: "C05", Map: ms, Stores: []Kind{k, partner}, Depth: 4,
+							ContentClause: "C05.sketch-content", Checks: []func(*SketchWorld, int) []mc.Fail{checkC05Sketch}}
+						if tier == "thorough" {
+							sp.Depth = 5
+						}
+						i0 := m.Index(1)
+						for _, d := range []int{0, 1, k.N - 1, k.N, k.N + 2, 3 * k.N} {
+							sp.Ops = append(sp.Ops, skAdd(0, m.Value(i0+d)))
+						}
+						sp.Ops = append(sp.Ops, skAdd(0, 0), skAdd(0, -m.Value(i0)), skAdd(0, -m.Value(i0+k.N+1)),
+							skAdd(1, m.Value(i0+1)), skAdd(1, m.Value(i0+2*k.N+3)), skAdd(1, -m.Value(i0+5)),
+							skMerge(0, 1), skMerge(1, 0), skCopy(0, 1), skClear(0), skCodec(0, 1, false, false), skCodec(0, 1, true, true))
+						sks = append(sks, sp)
+					}
+				}
+			}
+			return append(sh, shardsOfSketchSpecs(sks)...)
 		},
 		ShardBudget: budget(60*time.Second, 12*time.Minute),
 	})
